@@ -18,7 +18,7 @@ VARIABLE l
 Trace == ndJsonDeserialize(IOEnv.VERIF_TRACE)
 tvars == <<vars, l>>
 
-BindOK(r) == LET o == r.out[1] IN ~o.err /\ ~o.panic /\ ~o.hang /\ o.lat = r.in.req /\ o.api = r.in.method
+BindOK(r) == LET o == r.out[1] IN ~o.err /\ ~o.panic /\ ~o.hang /\ o.lat = r.in.req /\ o.api = r.in.api
 ConfOK(r) == r.out[1].arch = NeedsArchive(r.in.req, r.in.latest, r.in.rule, r.in.method)
 RuleOK(r) == LET o == r.out[2] IN ~o.panic /\ o.arch = NeedsArchiveE(r.in.req, r.in.latest, r.in.rule)
 
